@@ -109,7 +109,7 @@ pub fn run(seed: u64, thorough: bool) -> u64 {
     for (a, b) in [(0usize, 1usize), (0, 2), (1, 2)] {
         let other = 3 - a - b;
         for preheal in [true, false] {
-            let depth = match (thorough, preheal) { (false, true) => 5, (false, false) => 4, (true, true) => 6, (true, false) => 5 };
+            let depth = if thorough { 6 } else { 5 };
             let trading = if (a + b + preheal as usize) % 2 == 0 { TradingState::Disabled } else { TradingState::Enabled };
             let mut rig = build(&lay, [Link::Healthy; N_EX], trading, DefaultRiskManager::<State>::default());
             let mut r = Ref { conn: [(false, false); N_EX], disc: vec![] };
